@@ -229,6 +229,7 @@ def check(spec, ctx):
     topo = res.topology
     n_chiral = 0
     n_backmapped = 0
+    copies = {}
     for mi, meta in enumerate(topo.molecules):
         for node in meta.nodes:
             attrs = meta.nodes[node]
@@ -254,6 +255,17 @@ def check(spec, ctx):
                                                      f"{np.max(np.abs(P - centre)):.4f} nm from the residue position")
                 continue
             X = (P - centre) / fudge
+            # all copies of a residue type, in whatever molecule, are congruent: same distance matrix (atoms by name)
+            order = np.argsort(names)
+            dmat = np.linalg.norm(X[order][:, None, :] - X[order][None, :, :], axis=-1)
+            if key in copies:
+                ref_where, ref = copies[key]
+                if ref.shape != dmat.shape or np.max(np.abs(ref - dmat)) > 1e-6:
+                    raise Violation("copies_not_congruent", f"residue ({mi},{node}) {attrs['resname']} and residue {ref_where} are of "
+                                                            f"the same type but their atom-atom distances differ by up to "
+                                                            f"{np.max(np.abs(ref - dmat)) if ref.shape == dmat.shape else float('nan'):.5f} nm")
+            else:
+                copies[key] = ((mi, node), dmat)
             # distances first (catches scaling), then the proper rotation
             for i, j in itertools.combinations(range(len(atoms)), 2):
                 dt = np.linalg.norm(T[i] - T[j])
